@@ -244,15 +244,23 @@ def events(darsia, rng, stacks, degrees, quick):
     # kernel interpolation (E4).  Every configuration is followed by a twin on the SAME support points with another kernel
     # parameter (shift of the linear kernel, width of the Gaussian), and the first object is evaluated again afterwards:
     # an interpolation reproduces ITS values with ITS kernel whatever other interpolation objects exist
+    KFORM = [-1]
+
     def kernel_case(kern, gaussian, sup, vals, tid, ki=None):
         with warnings.catch_warnings():
             warnings.simplefilter("ignore")
             ki = ki or darsia.KernelInterpolation(kern, sup.copy(), vals.copy())
             at = np.asarray(ki(np.asarray(ki.supports, dtype=np.float32)), dtype=float)
             cond = np.linalg.cond(ki.X)
-            form = rng.choice(["pixels", "2d", "3d-as-2d"])
-            sig = np.random.RandomState(rng.randrange(10 ** 6)).rand(*{"pixels": (9, 3), "2d": (4, 5, 3), "3d-as-2d": (6, 2, 3)}[form]).astype(np.float32)
-            acc = np.asarray(ki(sig), dtype=float)
+            # (signal layouts in turn, the smallest ones included: a list of one pixel, an image of one pixel, one row / column)
+            KFORM[0] += 1
+            form = ["pixels", "2d", "3d-as-2d", "one-pixel-list", "one-pixel-image", "one-row", "one-column"][KFORM[0] % 7]
+            sig = np.random.RandomState(rng.randrange(10 ** 6)).rand(*{"pixels": (9, 3), "2d": (4, 5, 3), "3d-as-2d": (6, 2, 3), "one-pixel-list": (1, 3),
+                                                                       "one-pixel-image": (1, 1, 3), "one-row": (1, 4, 3), "one-column": (5, 1, 3)}[form]).astype(np.float32)
+            raw = ki(sig)
+            acc = np.asarray(raw, dtype=float)
+            if not isinstance(raw, np.ndarray) or raw.shape != sig.shape[:-1]:
+                acc = np.full(sig.shape[:-1], 1e9)      # the result is an array with one value per pixel, laid out like the signal
         w = np.asarray(ki.interpolation_weights, dtype=float)
         S = np.asarray(ki.supports, dtype=float)
         plain = np.zeros(sig.shape[:-1])
